@@ -255,7 +255,22 @@ func genSession(g, f *sim.Stream, tier string) (pieces []*replPiece, finalExpr s
 		id := 9000 + i*10
 		fp := &replPiece{Stale: map[int]int{}}
 		later := laterDefs(pos)
-		switch f.Intn(11) {
+		switch f.Intn(12) {
+		case 11:
+			// rejected piece whose block-scoped variable shadows a global
+			fp.Fault = "compile-undefined"
+			name := fmt.Sprintf("vy%d", i)
+			if vs := earlierIntVars(pos); len(vs) > 0 {
+				name = vs[f.Intn(len(vs))]
+			}
+			switch f.Intn(3) {
+			case 0:
+				fp.Src = fmt.Sprintf("for %s := 0; %s < 2; %s++ { mark(%d, 1); undefined_b%d }", name, name, name, id, i)
+			case 1:
+				fp.Src = fmt.Sprintf("if true { %s := 3; mark(%d, %s); undefined_c%d }", name, id, name, i)
+			default:
+				fp.Src = fmt.Sprintf("func tmpg%d(%s) { return %s + undefined_d%d }", i, name, name, i)
+			}
 		case 0:
 			fp.Fault = "syntax"
 			fp.Src = []string{"x := := 3", "func (", "if { ", "mark(1, 2", "[1, 2", "for i := 0; i < ; { }"}[f.Intn(6)]
